@@ -53,6 +53,11 @@ def find_path_consistent(fn, start, goals, blocked=(), blocked_edges=()):
     if start in blocked:
         return None
 
+    def kill(env, L):
+        env.pop(L, None)
+        for k in [k for k, v in env.items() if isinstance(v, tuple) and v[1] == L]:
+            env.pop(k)
+
     def transfer(b, env):
         env = dict(env)
         blk = fn.blocks[b]
@@ -62,23 +67,40 @@ def find_path_consistent(fn, start, goals, blocked=(), blocked_edges=()):
             L = st[1][0]
             rv = st[2]
             val = None
+            if rv[0] in ("ref", "raw") and "shared" not in str(rv[1]) and rv[2]:
+                kill(env, rv[2][0])       # may be written through the borrow from here on
+            if fn.local_ty(L) != "bool":
+                kill(env, L)
+                continue
             if rv[0] == "use":
                 op = rv[1]
                 if op[0] == "k" and isinstance(op[2], bool):
                     val = op[2]
-                elif op[0] in ("c", "m") and len(op[1]) == 1 and op[1][0] in env:
-                    val = env[op[1][0]]
+                elif op[0] in ("c", "m") and len(op[1]) == 1:
+                    X = op[1][0]
+                    if isinstance(env.get(X), bool):
+                        val = env[X]
+                    elif X != L:
+                        # a copy of a value not known yet: the first switch on it decides both
+                        val = env[X] if isinstance(env.get(X), tuple) else ("eq", X)
             elif rv[0] == "un" and rv[1] == "Not":
                 op = rv[2]
-                if op[0] in ("c", "m") and len(op[1]) == 1 and op[1][0] in env:
-                    val = not env[op[1][0]]
-            if val is None:
-                env.pop(L, None)
-            else:
+                if op[0] in ("c", "m") and len(op[1]) == 1:
+                    X = op[1][0]
+                    if isinstance(env.get(X), bool):
+                        val = not env[X]
+                    elif X != L:
+                        v0 = env.get(X)
+                        if isinstance(v0, tuple):
+                            val = ("ne" if v0[0] == "eq" else "eq", v0[1])
+                        else:
+                            val = ("ne", X)
+            kill(env, L)
+            if val is not None:
                 env[L] = val
         t = blk["t"]
         if t and t[0] == "call" and t[3]:
-            env.pop(t[3][0], None)
+            kill(env, t[3][0])
         return env
     start_env = frozenset()
     prev = {(start, start_env): None}
@@ -96,19 +118,34 @@ def find_path_consistent(fn, start, goals, blocked=(), blocked_edges=()):
         env = transfer(b, dict(envf))
         t = fn.blocks[b]["t"]
         allowed = None
-        if t and t[0] == "sw" and t[1][0] in ("c", "m") and len(t[1][1]) == 1 and t[1][1][0] in env:
-            v = env[t[1][1][0]]
-            tg = None
-            for val, tb in t[2]:
-                if bool(val) == v and val in (0, 1):
-                    tg = tb
-            allowed = {tg if tg is not None else t[3]}
-        nf = frozenset(env.items())
+        learn = {}
+        if t and t[0] == "sw" and t[1][0] in ("c", "m") and len(t[1][1]) == 1:
+            L = t[1][1][0]
+            if isinstance(env.get(L), bool):
+                v = env[L]
+                tg = None
+                for val, tb in t[2]:
+                    if bool(val) == v and val in (0, 1):
+                        tg = tb
+                allowed = {tg if tg is not None else t[3]}
+            elif len(t) > 4 and t[4] == "bool" and len(t[2]) == 1 and t[2][0][0] in (0, 1) \
+                    and t[2][0][1] != t[3]:
+                # a bool not known yet: the edge taken fixes it (and the local it copies) for
+                # the rest of the path, so a second test of the same value cannot disagree
+                arm_v = bool(t[2][0][0])
+                for tb, v in ((t[2][0][1], arm_v), (t[3], not arm_v)):
+                    e2 = dict(env)
+                    a = e2.get(L)
+                    e2[L] = v
+                    if isinstance(a, tuple):
+                        e2[a[1]] = v if a[0] == "eq" else (not v)
+                    learn[tb] = e2
         for s in fn.succ[b]:
             if s in blocked or (b, s) in blocked_edges:
                 continue
             if allowed is not None and s not in allowed:
                 continue
+            nf = frozenset(learn.get(s, env).items())
             ns = (s, nf)
             if ns in prev:
                 continue
